@@ -4,7 +4,7 @@ from __future__ import annotations
 import ast
 
 from ..loader import AnalysisError, call_attr, call_name, dotted, unparse
-from ..rulekit import arg_of, const_value, def_value, is_none_test, local_defs
+from ..rulekit import arg_of, const_value, def_value, is_none_test, local_defs, concat_parts
 
 SA = "aiokafka.conn.ScramAuthenticator"
 
@@ -153,8 +153,8 @@ def rule_provenance(ctx):
     am = [s for s in c.stores(attr="_auth_message")]
     ok = len(am) == 2 and all(isinstance(s.stmt, ast.AugAssign) and isinstance(s.stmt.op, ast.Add) for s in am)
     if ok:
-        v = [unparse(s.stmt.value) for s in am]
-        ok = v == ["',' + server_first", "',c=biws,r=' + self._nonce"] and c.dominates(am[0], am[1])
+        v = [concat_parts(s.stmt.value) for s in am]
+        ok = v == [[("s", ","), ("e", fi.params()[1])], [("s", ",c=biws,r="), ("e", "self._nonce")]] and c.dominates(am[0], am[1])
         ns = c.stores(attr="_nonce")
         ok = ok and len(ns) == 1 and c.dominates(ns[0], am[1])
         ok = ok and all(c.dominates(am[1], nodes[a]) for a in ("_client_signature", "_server_signature") if a in nodes)
@@ -165,9 +165,9 @@ def rule_provenance(ctx):
     cf = ctx.cfg(ff)
     am = cf.stores(attr="_auth_message")
     bare = local_defs(cf, "client_first_bare")
-    ok = len(am) == 1 and isinstance(am[0].stmt, ast.AugAssign) and unparse(am[0].stmt.value) == "client_first_bare" and len(bare) == 1 and unparse(def_value(bare[0])) == "f'n={quoted_username},r={self._nonce}'"
+    ok = len(am) == 1 and isinstance(am[0].stmt, ast.AugAssign) and unparse(am[0].stmt.value) == "client_first_bare" and len(bare) == 1 and concat_parts(def_value(bare[0])) == [("s", "n="), ("e", "quoted_username"), ("s", ",r="), ("e", "self._nonce")]
     r = [x for x in cf.nodes if x.kind == "return"]
-    ok = ok and len(r) == 1 and unparse(r[0].ast.value) == "'n,,' + client_first_bare"
+    ok = ok and len(r) == 1 and concat_parts(r[0].ast.value) == [("s", "n,,"), ("e", "client_first_bare")]
     ctx.ob(R, ff, ff.node, ok, "client-first message is not gs2-header 'n,,' + 'n=<user>,r=<nonce>' with the bare part recorded in the transcript", text="client-first")
     f0 = ctx.fn(f"{SA}.__init__")
     s0 = ctx.cfg(f0).stores(attr="_auth_message")
